@@ -145,4 +145,9 @@ func (p *Path) makeSample() {
 	}
 	p.sample = &obsSample{Harness: p.harness.Name(), Inputs: append([]inputVar{}, p.inputs...), Model: model, Choices: ch, Log: log,
 		Sched: append([]schedStep{}, p.sched.trace...)}
+	for _, g := range p.sched.gs {
+		if !g.env {
+			p.sample.Gors++
+		}
+	}
 }
